@@ -42,6 +42,10 @@ def programs(ctx):
         c = {"ord": (), "partial_ord": po, "eq": (), "partial_eq": (), "hash": ()}
         td = F.single_field_typedef(c, ["PartialEq", "PartialOrd"], placement, entry=["attr", "derive"][j % 2], keys="consistent", ty="u8")
         out.append(F.build_prog("p_%04d" % (i + j), td, want=(), laws=True))
+        # the same with a by that is not even reflexive (a NaN-like key): x == x is false exactly where partial_cmp(x, x) is None
+        td = F.single_field_typedef(c, ["PartialEq", "PartialOrd"], placement, entry=["derive", "attr"][j % 2], keys="consistent", ty="u8")
+        td.nonreflexive = True
+        out.append(F.build_prog("p_%04d" % (i + 3 + j), td, want=(), laws=True))
     return out
 
 
